@@ -6,6 +6,7 @@ import (
 	"encoding/binary"
 	"errors"
 	"io"
+	"math"
 	"slices"
 )
 
@@ -80,6 +81,12 @@ type Field struct {
 }
 
 func NewField(fieldType [2]byte, data []byte) Field {
+	// The size prefix of a field has 16 bits.  Data that does not fit is cut off at 65,535 bytes: a size that wrapped
+	// around would make the whole stream of the receiving client unreadable.
+	if len(data) > math.MaxUint16 {
+		data = data[:math.MaxUint16]
+	}
+
 	f := Field{
 		Type: fieldType,
 		Data: make([]byte, len(data)),
